@@ -1,5 +1,5 @@
 //@unit depth
-//@props C01 C17
+//@props C01 C17 C08 C10 C03
 // U-depth: the nesting guard. `inc_depth`/`dec_depth` and the dispatcher
 // `impl EventGen for SvgElement` are verified; every other generator is opaque and assumed to
 // meet the trait-level contract (GroupElement, ReuseElement, SpecsElement, VarElement are
@@ -67,8 +67,15 @@ impl SvgElement {
     // assumed: attribute lookup (AttrMap is string code, see DESIGN 1)
     #[verifier::external_body]
     pub fn get_attr(&self, key: &str) -> (r: Option<String>) ensures (match r { Some(s) => Some(s@), None => None }) == attr_spec(*self, key@) { unimplemented!() }
+    #[verifier::external_body]
+    pub fn has_attr(&self, key: &str) -> (r: bool) ensures r == (attr_spec(*self, key@) is Some) { unimplemented!() }
+    /// R-into: `self.all_events(context).into()`
+    #[verifier::external_body]
+    pub fn all_events_verbatim(&self, context: &TransformerContext) -> (r: OutputList) ensures r == verbatim_events(*self, context.events@) { unimplemented!() }
 }
 pub uninterp spec fn attr_spec(el: SvgElement, key: Seq<char>) -> Option<Seq<char>>;
+/// the element's own events, converted as they are (InputList -> OutputList, U-xmlsink)
+pub uninterp spec fn verbatim_events(el: SvgElement, evs: Seq<InputEvent>) -> OutputList;
 pub uninterp spec fn urlref_spec(s: Seq<char>) -> Option<ElRef>;
 /// the element a `clip-path="url(#id)"` attribute names, if any
 pub open spec fn clip_of(el: SvgElement) -> Option<ElRef> {
@@ -101,7 +108,7 @@ pub open spec fn depth_frame(pre: TransformerContext, post: TransformerContext) 
 impl TransformerContext {
 //@item src/context.rs :: impl TransformerContext :: fn inc_depth
 //@ ensures
-//@ - final(self).config == old(self).config && final(self).gen_depths == old(self).gen_depths    @@C17.depth.inc.frame
+//@ - final(self).config == old(self).config && final(self).gen_depths == old(self).gen_depths && final(self).events == old(self).events    @@C17.depth.inc.frame
 //@ - r is Ok <==> old(self).current_depth + 1 <= old(self).config.depth_limit    @@C17.depth.exact
 //@ - r is Err ==> r->Err_0 is DepthLimitExceeded    @@C17.depth.exact.kind
 //@ - r is Ok ==> final(self).current_depth == old(self).current_depth + 1    @@C17.depth.inc.count
@@ -110,7 +117,7 @@ impl TransformerContext {
 
 //@item src/context.rs :: impl TransformerContext :: fn dec_depth
 //@ ensures
-//@ - final(self).config == old(self).config && final(self).gen_depths == old(self).gen_depths    @@C17.depth.dec.frame
+//@ - final(self).config == old(self).config && final(self).gen_depths == old(self).gen_depths && final(self).events == old(self).events    @@C17.depth.dec.frame
 //@ - old(self).current_depth > 0 ==> r is Ok && final(self).current_depth == old(self).current_depth - 1   @@C17.depth.dec.count
 //@ - old(self).current_depth == 0 ==> r is Err && final(self).current_depth == 0    @@C17.depth.dec.zero
 //@end
@@ -249,12 +256,15 @@ impl EventGen for IfElement {
 impl EventGen for SvgElement {
 //@rewrite strlit strmatch
 //@item src/transform.rs :: impl EventGen for SvgElement :: fn generate_events
-//@ strlit "loop" "config" "reuse" "specs" "var" "if" "defaults" "for" "g" "symbol" "clip-path"
+//@ strlit "loop" "config" "reuse" "specs" "var" "if" "defaults" "for" "g" "symbol" "clip-path" "svg" "xmlns"
+//@ replace[R-into] <<<Ok((self.all_events(context).into(), None))>>> => <<<Ok((self.all_events_verbatim(context), None))>>>
 //@ replace-re[R-andthen] <<<self\.get_attr\("clip-path"\)\s*\.and_then\(\|url\| extract_urlref\(&url\)\)>>> => <<<clip_ref(self)>>>
 //@ ensures
 //@ - old(context).current_depth + 1 > old(context).config.depth_limit ==> r is Err    @@C17.depth.guard @@C01.depth.guard
 //@ - final(context).gen_depths@.len() > old(context).gen_depths@.len() ==> final(context).gen_depths@[old(context).gen_depths@.len() as int] == old(context).current_depth + 1    @@C01.depth.counted_while_nested @@C17.depth.counted_while_nested
 //@ - r is Ok && clip_of(*self) is Some && !known(*final(context), clip_of(*self)->Some_0) && !plain_container(*self) ==> r->Ok_0.1 is None     @@C08.clip.unknown_target_gives_no_box @@C10.clip.unknown_target_gives_no_box
+//@ - self.name@ == "svg"@ && attr_spec(*self, "xmlns"@) is Some && !plain_container(*self) && clip_of(*self) is None && old(context).current_depth + 1 <= old(context).config.depth_limit ==>
+//@       r is Ok && r->Ok_0.0 == verbatim_events(*self, old(context).events@) && r->Ok_0.1 is None     @@C03.nested.empty_element_verbatim
 //@end
 //@rewrite -strlit -strmatch
 }
